@@ -26,7 +26,20 @@ case "${1:-}" in
   C[0-9][0-9]*)
     build
     tier="${2:-${VERIF_TIER:-quick}}"
-    exec "$BIN" -repo "$REPO" -verif "$VERIF" -property "$1" -tier "$tier" ${3:+-only "$3"}
+    if [ "$tier" != "thorough" ] || [ -n "${3:-}" ]; then
+      exec "$BIN" -repo "$REPO" -verif "$VERIF" -property "$1" -tier "$tier" ${3:+-only "$3"}
+    fi
+    # thorough: the same rules over the VTA-refined call graph, then the checker's own sensitivity is re-measured
+    # for this property: every source variant and every kept seeded change of the property is analysed as an
+    # overlay on /repo's current files (nothing is written to /repo, nothing from /repo is executed) and the
+    # result is recorded in the evidence. The verdict (exit status) is that of the analysis of /repo alone.
+    "$BIN" -repo "$REPO" -verif "$VERIF" -property "$1" -tier thorough
+    rc=$?
+    st="$VERIF/evidence/.selftest-$1.$$.json"
+    python3 "$VERIF/selftest.py" -p "$1" -j 8 --quiet --json "$st" | tail -3
+    python3 "$VERIF/merge_selftest.py" "$VERIF/evidence/$1.json" "$st"
+    rm -f "$st"
+    exit $rc
     ;;
   *) echo "usage: $0 Cxx quick|thorough | --replay <file> | --build" >&2; exit 2 ;;
 esac
